@@ -261,3 +261,30 @@ pub fn c12_q_requirement_tables() {
     assert!(sp.needs_local_static_key(initiator) == want_local, "C12: needs_local_static_key disagrees with the pattern's tokens");
     assert!(sp.need_known_remote_pubkey(initiator) == want_remote, "C12: need_known_remote_pubkey disagrees with the pattern's pre-messages");
 }
+
+/// C10: `HandshakeState::set_psk` with ANY location (full usize) and any key length 0..=40 returns Ok or Err, never
+/// panics; Ok iff the length is 32 and the location is one of the 10 slots; and `Builder::psk` with any location.
+#[kani::proof]
+#[kani::unwind(12)]
+pub fn c10_q_set_psk_any_location_and_length() {
+    use crate::glue::*;
+    use crate::prims::Toy;
+    static KEYBYTES: [u8; 40] = [0x77u8; 40];
+    let rm = HsOps::<Toy<8, 4, 4>>::initialize(Pat::NN, 1, true, b"Noise_test", &[], None, None, [[0u8; 32]; 10], 0);
+    let mut hs = snow_from_rm_oracle::<4, 4>(&rm, "Noise_test", false);
+    let loc: usize = kani::any();
+    let len: usize = kani::any();
+    kani::assume(len <= 40);
+    let r = hs.set_psk(loc, &KEYBYTES[..len]);
+    kani::cover!(r.is_ok(), "C10 set_psk ok reachable");
+    kani::cover!(r.is_err() && loc > 1000, "C10 set_psk far out of range reachable");
+    assert!(r.is_ok() == (len == 32 && loc < 10), "C10: set_psk succeeds iff the key has 32 bytes and the location is a valid slot");
+    if r.is_err() {
+        assert!(r == Err(Error::Input), "C10: set_psk reports bad arguments as an input error");
+    }
+    let bloc: u8 = kani::any();
+    let b = Builder::with_resolver(params_with(Pat::NN, Vec::new()), Box::new(StubResolver { rng: true, dh: true, cipher: true, hash: true })).psk(bloc, &PSK);
+    assert!(b.is_ok() == (bloc < 10), "C10: Builder::psk accepts exactly the 10 slots");
+    core::mem::forget(b);
+    core::mem::forget(hs);
+}
